@@ -28,7 +28,7 @@ Definition stage_fn (s : stage) : string :=
   | StFilterBefore => "processFilteringBeforeRequest"
   | StUpstream => "processUpstream"
   | StFilterAfter => "processFilteringAfterResponse"
-  | StIpset => "ipset.process"
+  | StIpset => "processIpset"
   | StLog => "processQueryLogsAndStats"
   end.
 
